@@ -106,7 +106,8 @@ CHECKS = {
     ),
     "C12": dict(
         engine="vrt", parts=["vrt", "gen:tsem"], level="model_checking", quick_cap=280, thorough_cap=3600,
-        rule=("Runtime level. Inputs per wire protocol {binary, binary-LE, compact}: reference encodings of all depth<=1 shapes "
+        rule=("[every valid input is also skipped as an unknown field (header, skip, field end, next header) through the async reader under the three extreme schedules and compared with the in-memory reader; bool-field-then-bool-container shapes included] "
+              "Runtime level. Inputs per wire protocol {binary, binary-LE, compact}: reference encodings of all depth<=1 shapes "
               "(+15-element containers), their depth-2 wrappers and boundary scalars as struct fields, each followed by 16 trailing "
               "bytes; every truncation of every encoding <=40 bytes; every length/count position overwritten with "
               "{-1,0,1,rem-1,rem+1,2^31-1}. Environment: every poll_read of the scripted stream is a choice point {deliver all "
@@ -313,7 +314,8 @@ CHECKS = {
               "{single file, split files, workspace}. Schedules: (a) with the cfg(pilota_verif) hook the per-module code generation "
               "tasks run sequentially in a dictated order: ALL permutations for <=4 [5] tasks (adjacent transpositions + reversal "
               "beyond); (b) without the hook: per-process hash seeds 0..7 [0..95] x rayon pool sizes {1,16} [{1,2,3,4,8,16}], the "
-              "seeds being owned through an LD_PRELOAD getrandom/syscall shim with ASLR off. Oracle: the set of emitted files and "
+              "seeds being owned through an LD_PRELOAD getrandom/syscall shim with ASLR off; (c) a second generation into the directory "
+              "that already holds the first run's files (the build.rs sequence). Oracle: the set of emitted files and "
               "every file's SHA-256 equal those of the reference run (seed 0, one thread); the hooked build's output equals the "
               "unhooked one. states = distinct schedules (task orders, seeds); transitions = builder executions; "
               "traces_validated_against_impl = executions (every schedule is run on the real generator). The evidence also counts "
